@@ -148,6 +148,8 @@ func genSubs() {
 
 	genNotifyLoop(&sb)
 	genHookLocks(&sb)
+	genRegisterHook(&sb)
+	genRegistryPush(&sb)
 
 	sb.WriteString("end PB.Gen.Subs\n")
 	write("Subs.lean", sb.String())
@@ -476,9 +478,299 @@ func genHookLocks(sb *strings.Builder) {
 		}
 		return true
 	})
+	// the removal itself: the one loop over c.hooks takes out the entry that IS this registration (`hook == h`) — not one
+	// that merely has the same query or the same hook value — and only that one
+	var loops []*ast.RangeStmt
+	ast.Inspect(fd.Body, func(nd ast.Node) bool {
+		if rs, ok := nd.(*ast.RangeStmt); ok {
+			loops = append(loops, rs)
+		}
+		if _, ok := nd.(*ast.ForStmt); ok {
+			die("RegisteredHook.Cancel: unexpected for statement")
+		}
+		return true
+	})
+	if len(loops) != 1 || exprString(fset2, loops[0].X) != "c.hooks" || len(loops[0].Body.List) != 1 {
+		die("RegisteredHook.Cancel: expected one loop over c.hooks with one statement")
+	}
+	ifs, ok := loops[0].Body.List[0].(*ast.IfStmt)
+	kn, vn := "", ""
+	if id, ok := loops[0].Key.(*ast.Ident); ok {
+		kn = id.Name
+	}
+	if id, ok := loops[0].Value.(*ast.Ident); ok {
+		vn = id.Name
+	}
+	if !ok || ifs.Init != nil || ifs.Else != nil || kn == "" || vn == "" || (exprString(fset2, ifs.Cond) != vn+" == h" && exprString(fset2, ifs.Cond) != "h == "+vn) {
+		die("RegisteredHook.Cancel: the loop does not test `%s == h` (the registration itself)", vn)
+	}
+	var body []string
+	for _, st := range ifs.Body.List {
+		switch x := st.(type) {
+		case *ast.AssignStmt:
+			if len(x.Lhs) != 1 || len(x.Rhs) != 1 {
+				die("RegisteredHook.Cancel: unexpected assignment in the removal")
+			}
+			body = append(body, exprString(fset2, x.Lhs[0])+" "+x.Tok.String()+" "+exprString(fset2, x.Rhs[0]))
+		case *ast.ReturnStmt:
+			body = append(body, "return")
+		case *ast.ExprStmt:
+			if !isVerifEventCall(x.X) {
+				die("RegisteredHook.Cancel: unexpected statement in the removal")
+			}
+		default:
+			die("RegisteredHook.Cancel: unexpected statement %T in the removal", st)
+		}
+	}
+	if got, want := strings.Join(body, "; "), "c.hooks = append(c.hooks[:"+kn+"], c.hooks["+kn+"+1:]...); return"; got != want {
+		die("RegisteredHook.Cancel: the removal is not `%s` but `%s`", want, got)
+	}
 	sb.WriteString("/-- Does `RegisteredHook.Cancel` (database/hook.go) hold `hooksLock` exclusively (`Lock(); defer Unlock()`) while it\n")
 	sb.WriteString("    removes the hook? -/\n")
 	fmt.Fprintf(sb, "def hookCancelWriteLocked : Bool := %v\n\n", excl)
+}
+
+// ---- (e) RegisterHook: every call makes its own list entry ---------------------------------------------------
+//
+// After the query check and getController: `rh := &RegisteredHook{q: q, h: hook}` (both fields, from the two
+// parameters), `c.hooksLock.Lock()`, `defer c.hooksLock.Unlock()`, `c.hooks = append(c.hooks, rh)`, `return rh, nil`
+// — and nothing else that reads or writes c.hooks or returns another registration. Anything else: fail closed.
+
+func genRegisterHook(sb *strings.Builder) {
+	fset, f := parseFile("database/hook.go")
+	fd := findFunc(f, "RegisterHook", "")
+	if fd == nil {
+		die("RegisterHook not found")
+	}
+	if fd.Type.Params == nil || len(fd.Type.Params.List) != 2 || len(fd.Type.Params.List[0].Names) != 1 || len(fd.Type.Params.List[1].Names) != 1 ||
+		fd.Type.Params.List[0].Names[0].Name != "q" || fd.Type.Params.List[1].Names[0].Name != "hook" {
+		die("RegisterHook: parameters are not (q, hook)")
+	}
+	// statements from the lock on
+	lockAt := -1
+	for i, st := range fd.Body.List {
+		if es, ok := st.(*ast.ExprStmt); ok && exprString(fset, es.X) == "c.hooksLock.Lock()" {
+			lockAt = i
+		}
+	}
+	if lockAt < 0 {
+		die("RegisterHook: c.hooksLock.Lock() is not a top-level statement")
+	}
+	var tail []string
+	for _, st := range fd.Body.List[lockAt:] {
+		switch x := st.(type) {
+		case *ast.ExprStmt:
+			if isVerifEventCall(x.X) {
+				continue
+			}
+			tail = append(tail, exprString(fset, x.X))
+		case *ast.DeferStmt:
+			tail = append(tail, "defer "+exprString(fset, x.Call))
+		case *ast.AssignStmt:
+			if len(x.Lhs) != 1 || len(x.Rhs) != 1 {
+				die("RegisterHook: unexpected assignment under the lock")
+			}
+			tail = append(tail, exprString(fset, x.Lhs[0])+" "+x.Tok.String()+" "+exprString(fset, x.Rhs[0]))
+		case *ast.ReturnStmt:
+			var rs []string
+			for _, r := range x.Results {
+				rs = append(rs, exprString(fset, r))
+			}
+			tail = append(tail, "return "+strings.Join(rs, ", "))
+		default:
+			die("RegisterHook: unexpected statement %T under hooksLock (every call must append its own registration)", st)
+		}
+	}
+	want := "c.hooksLock.Lock(); defer c.hooksLock.Unlock(); c.hooks = append(c.hooks, rh); return rh, nil"
+	if got := strings.Join(tail, "; "); got != want {
+		die("RegisterHook: the locked section is not `%s` but `%s`", want, got)
+	}
+	// rh is the fresh registration made of the two parameters, and c.hooks is touched nowhere else
+	nrh, nhooks := 0, 0
+	ast.Inspect(fd.Body, func(n ast.Node) bool {
+		switch x := n.(type) {
+		case *ast.GoStmt, *ast.FuncLit:
+			die("RegisterHook: unexpected %T", x)
+		case *ast.AssignStmt:
+			for i, l := range x.Lhs {
+				if id, ok := l.(*ast.Ident); ok && id.Name == "rh" {
+					nrh++
+					if len(x.Rhs) != len(x.Lhs) {
+						die("RegisterHook: rh is assigned from a multi-value expression")
+					}
+					s := strings.Join(strings.Fields(exprString(fset, x.Rhs[i])), " ")
+					s = strings.NewReplacer("{ ", "{", ", }", "}", " }", "}").Replace(s)
+					if s != "&RegisteredHook{q: q, h: hook}" {
+						die("RegisterHook: rh is not &RegisteredHook{q: q, h: hook} but %s", s)
+					}
+				}
+			}
+		case *ast.SelectorExpr:
+			if exprString(fset, x) == "c.hooks" {
+				nhooks++
+			}
+		}
+		return true
+	})
+	if nrh != 1 || nhooks != 2 {
+		die("RegisterHook: rh assigned %d times, c.hooks used %d times (expected 1 and 2)", nrh, nhooks)
+	}
+	sb.WriteString("/-- `RegisterHook` (database/hook.go), regenerated: under `hooksLock` (exclusive) it appends a fresh\n")
+	sb.WriteString("    `&RegisteredHook{q, hook}` to `c.hooks` and returns it — unconditionally: the list and the hook value are not looked at. -/\n")
+	sb.WriteString("def registerHookAlwaysAppends : Bool := true\n\n")
+}
+
+// ---- (f) runtime.Registry: which controller does the PushFunc that Register returns push to? ---------------------
+//
+// The function literal `Register` returns calls `<X>.PushUpdate(rec)` in a range loop over its variadic parameter.
+// X = `r.dbController` with `r.l.RLock()` + `defer r.l.RUnlock()` as the literal's first statements: the controller is
+// read when the function is called (true). X = a local of Register that was set from `r.dbController` outside the
+// literal: it is the controller the registry had when the provider was registered (false). Anything else: fail closed.
+// InjectAsDatabase must set r.dbController under r.l.Lock() and refuse a second injection.
+
+func genRegistryPush(sb *strings.Builder) {
+	fset, f := parseFile("runtime/registry.go")
+	fd := findFunc(f, "Register", "Registry")
+	if fd == nil {
+		die("Registry.Register not found")
+	}
+	if fd.Recv == nil || len(fd.Recv.List) != 1 || len(fd.Recv.List[0].Names) != 1 || fd.Recv.List[0].Names[0].Name != "r" {
+		die("Registry.Register: receiver is not named r")
+	}
+	var lit *ast.FuncLit
+	nlits := 0
+	for _, st := range fd.Body.List {
+		if ret, ok := st.(*ast.ReturnStmt); ok && len(ret.Results) == 2 {
+			if fl, ok := ret.Results[0].(*ast.FuncLit); ok {
+				lit = fl
+				nlits++
+			}
+		}
+	}
+	if lit == nil || nlits != 1 {
+		die("Registry.Register: expected exactly one top-level `return func(records ...record.Record) {…}, nil`")
+	}
+	if lit.Type.Params == nil || len(lit.Type.Params.List) != 1 || len(lit.Type.Params.List[0].Names) != 1 {
+		die("Registry.Register: the push function does not have one (variadic) parameter")
+	}
+	if _, ok := lit.Type.Params.List[0].Type.(*ast.Ellipsis); !ok {
+		die("Registry.Register: the push function's parameter is not variadic")
+	}
+	param := lit.Type.Params.List[0].Names[0].Name
+	// the calls of PushUpdate inside the literal
+	var recvs []string
+	var loopOK bool
+	ast.Inspect(lit.Body, func(n ast.Node) bool {
+		switch x := n.(type) {
+		case *ast.GoStmt, *ast.FuncLit:
+			die("Registry.Register: unexpected %T in the push function", x)
+		case *ast.RangeStmt:
+			if exprString(fset, x.X) == param && len(x.Body.List) == 1 {
+				if es, ok := x.Body.List[0].(*ast.ExprStmt); ok {
+					if call, ok := es.X.(*ast.CallExpr); ok && len(call.Args) == 1 {
+						if v, ok := x.Value.(*ast.Ident); ok && exprString(fset, call.Args[0]) == v.Name {
+							loopOK = true
+						}
+					}
+				}
+			}
+		case *ast.CallExpr:
+			if sel, ok := x.Fun.(*ast.SelectorExpr); ok && sel.Sel.Name == "PushUpdate" {
+				recvs = append(recvs, exprString(fset, sel.X))
+			}
+		}
+		return true
+	})
+	if len(recvs) != 1 || !loopOK {
+		die("Registry.Register: the push function is not one loop `for _, rec := range %s { X.PushUpdate(rec) }`", param)
+	}
+	// top-level statements of the literal: optional lock pair, optional nil guard on X, the loop
+	var shape []string
+	for _, st := range lit.Body.List {
+		switch x := st.(type) {
+		case *ast.ExprStmt:
+			shape = append(shape, exprString(fset, x.X))
+		case *ast.DeferStmt:
+			shape = append(shape, "defer "+exprString(fset, x.Call))
+		case *ast.IfStmt:
+			if x.Init != nil || x.Else != nil || len(x.Body.List) != 1 {
+				die("Registry.Register: unexpected if in the push function")
+			}
+			if ret, ok := x.Body.List[0].(*ast.ReturnStmt); !ok || len(ret.Results) != 0 {
+				die("Registry.Register: the if in the push function does not just return")
+			}
+			shape = append(shape, "if "+exprString(fset, x.Cond)+" return")
+		case *ast.RangeStmt:
+			shape = append(shape, "loop")
+		default:
+			die("Registry.Register: unexpected statement %T in the push function", st)
+		}
+	}
+	x := recvs[0]
+	atPush := false
+	switch strings.Join(shape, "; ") {
+	case "r.l.RLock(); defer r.l.RUnlock(); if " + x + " == nil return; loop", "r.l.RLock(); defer r.l.RUnlock(); loop":
+		if x != "r.dbController" {
+			die("Registry.Register: the push function locks the registry but pushes to %s", x)
+		}
+		atPush = true
+	case "if " + x + " == nil return; loop", "loop":
+		// no lock: X must be a local of Register bound once from r.dbController, outside the literal
+		if id, ok := lit.Body.List[len(lit.Body.List)-1].(*ast.RangeStmt); !ok || id == nil {
+			die("Registry.Register: unknown shape of the push function")
+		}
+		bound := 0
+		for _, st := range fd.Body.List {
+			if as, ok := st.(*ast.AssignStmt); ok && len(as.Lhs) == 1 && len(as.Rhs) == 1 && exprString(fset, as.Lhs[0]) == x {
+				if exprString(fset, as.Rhs[0]) != "r.dbController" {
+					die("Registry.Register: %s is bound to %s", x, exprString(fset, as.Rhs[0]))
+				}
+				bound++
+			}
+		}
+		if bound != 1 {
+			die("Registry.Register: the push function pushes to %s, which is not a local bound once to r.dbController", x)
+		}
+	default:
+		die("Registry.Register: unknown shape of the push function: %s", strings.Join(shape, "; "))
+	}
+	// InjectAsDatabase: exclusive lock, refuses when r.dbController != nil, sets r.dbController to what InjectDatabase returned
+	inj := findFunc(f, "InjectAsDatabase", "Registry")
+	if inj == nil {
+		die("Registry.InjectAsDatabase not found")
+	}
+	var ishape []string
+	for _, st := range inj.Body.List {
+		switch y := st.(type) {
+		case *ast.ExprStmt:
+			ishape = append(ishape, exprString(fset, y.X))
+		case *ast.DeferStmt:
+			ishape = append(ishape, "defer "+exprString(fset, y.Call))
+		case *ast.IfStmt:
+			ishape = append(ishape, "if "+exprString(fset, y.Cond))
+		case *ast.AssignStmt:
+			var l, r []string
+			for _, e := range y.Lhs {
+				l = append(l, exprString(fset, e))
+			}
+			for _, e := range y.Rhs {
+				r = append(r, exprString(fset, e))
+			}
+			ishape = append(ishape, strings.Join(l, ", ")+" "+y.Tok.String()+" "+strings.Join(r, ", "))
+		case *ast.ReturnStmt:
+			ishape = append(ishape, "return")
+		default:
+			die("Registry.InjectAsDatabase: unexpected statement %T", st)
+		}
+	}
+	wantInj := "r.l.Lock(); defer r.l.Unlock(); if r.dbController != nil; ctrl, err := database.InjectDatabase(name, r.asStorage()); if err != nil; r.dbName = name; r.dbController = ctrl; return"
+	if got := strings.Join(ishape, "; "); got != wantInj {
+		die("Registry.InjectAsDatabase: unknown shape: %s", got)
+	}
+	sb.WriteString("/-- The `PushFunc` that `Registry.Register` (runtime/registry.go) returns, regenerated: does it read `r.dbController`\n")
+	sb.WriteString("    (under the registry lock) each time it is called (true), or does it push to the controller the registry had when\n")
+	sb.WriteString("    the provider was registered (false)? -/\n")
+	fmt.Fprintf(sb, "def pushReadsControllerAtPush : Bool := %v\n\n", atPush)
 }
 
 func exprOf(e ast.Expr) string {
